@@ -47,7 +47,21 @@ Is(name) == l <= Len(Rec) /\ Cur.ev = name
 Begin == /\ Is("begin") /\ l' = l + 1 /\ e' = [ev |-> "begin", id |-> 0, line |-> 0]
          /\ obs' = Empty /\ blk' = Empty /\ tau' = Empty /\ val' = Empty /\ rel' = {} /\ scr' = Cur.script
 
+\* number of observation pairs a relation has compared so far (vacuity guard: reported at the end
+\* of every trace; a script whose relations compared nothing is a tool error)
+Pairs(r) ==
+  CASE r.mode \in {"full", "ctl", "chan"} -> Min(Len(obs[r.a]), Len(obs[r.b]))
+    [] r.mode = "blocks" -> Min(Len(blk[r.a]), Len(blk[r.b]))
+    [] r.mode = "taus"   -> Min(Len(tau[r.a]), Len(tau[r.b]))
+    [] r.mode = "poly"   -> Min(Len(tau[r.a]), Len(val[r.b]))
+    [] OTHER -> 0
+RECURSIVE SumPairs(_)
+SumPairs(S) == IF S = {} THEN 0 ELSE LET r == CHOOSE x \in S : TRUE IN Pairs(r) + SumPairs(S \ {r})
+MinPairs == IF rel = {} THEN -1
+            ELSE LET r == CHOOSE x \in rel : \A y \in rel : Pairs(x) <= Pairs(y) IN Pairs(r)
+
 End == /\ Is("end") /\ l' = l + 1 /\ e' = [ev |-> "end", id |-> 0, line |-> 0]
+       /\ PrintT("PAIRS|" \o scr \o "|" \o ToString(SumPairs(rel)) \o "|" \o ToString(MinPairs))
        /\ UNCHANGED <<obs, blk, tau, val, rel, scr>>
 
 \* measurements that are not calls on one instance: kernel probes, numeric comparisons
